@@ -10,7 +10,6 @@ import (
 	"os"
 	"path/filepath"
 	"regexp"
-	"runtime"
 	"sort"
 	"strconv"
 	"strings"
@@ -366,7 +365,7 @@ func runProp(def *PropDef, cfg *SolverCfg, tier string) *checkResult {
 		res.funcs = append(res.funcs, "cntP / cntNZ counting lemmas (govc/lemmas.go, induction)")
 	}
 	all := append(append([]*Obligation{}, res.obs...), res.covers...)
-	DischargeAll(all, st, cfg, runtime.NumCPU())
+	DischargeAll(all, st, cfg, workers())
 	return res
 }
 
